@@ -498,7 +498,7 @@ impl World {
                         self.msgs.push(Msg { txn: true, k: ds.len(), diffs: Some(ds) });
                     }
                     // the probe is a batched subscriber with an empty pipeline: C13's business too
-                    self.ck.check(replica_ok, &[C05, C07, C13], || {
+                    self.ck.check(replica_ok, &[C05, C06, C07, C13], || {
                         format!("{what}: replica of an up-to-date subscriber {:?} != vector contents {:?}", self.probe.as_ref().unwrap().1, self.model)
                     })?;
                 }
